@@ -172,6 +172,41 @@ def runDistObj (ks : List Kind) (ws vn ln : List Nat) (sched : List Nat) (m : Op
   let vars := names.map (fun n => match s.vars n with | none => "N" | some i => fmtId i)
   s!"{",".intercalate labels} ; {",".intercalate (s.calls.reverse.map fmtCall)} ; uid={",".intercalate wids} var={",".intercalate vars} ; {",".intercalate outs} ; lock={lock}"
 
+/-- `c<t>` = thread `t` dies where it is parked; `<t>` = one scheduler step (context switches at external operations) -/
+def parseEv? (s : String) : Option (Bool × Nat) :=
+  if s.startsWith "c" then ((s.drop 1).toString.toNat?).map (fun t => (true, t)) else (s.toNat?).map (fun t => (false, t))
+
+def traceEv {σ : Type} (step : σ → Nat → σ) (label : σ → Nat → String) (crash : σ → Nat → σ) :
+    σ → List (Bool × Nat) → List String → σ × List String
+  | s, [], acc => (s, acc.reverse)
+  | s, (true, t) :: rest, acc =>
+    -- a thread that has already returned or raised cannot die any more
+    traceEv step label crash (if label s t == "-" then s else crash s t) rest (s!"{t}:crash" :: acc)
+  | s, (false, t) :: rest, acc =>
+    let r := macroStep extLabels step label s t
+    traceEv step label crash r.1 rest (r.2 :: acc)
+
+def runLocalEv (ks : List Kind) (evs : List (Bool × Nat)) : String :=
+  let cfg : Local.Cfg := { kind := kindOf ks }
+  let (s, labels) := traceEv (Local.step cfg) (Local.label cfg) Local.crash Local.init evs []
+  let crashed := fun t => evs.any (fun e => e.1 && e.2 == t)
+  let outs := (List.range ks.length).map (fun t =>
+    if s.pc t == .faulted && crashed t then "Killed" else fmtLocalOutcome (s.pc t))
+  let lock := match s.held with | none => "free" | some h => toString h
+  s!"{",".intercalate labels} ; {",".intercalate (s.calls.reverse.map fmtCall)} ; uid={fmtId s.uploadId} ; {",".intercalate outs} ; lock={lock}"
+
+def runDistEv (ks : List Kind) (ws : List Nat) (evs : List (Bool × Nat)) : String :=
+  let cfg : Dist.Cfg := { kind := kindOf ks, worker := fun t => ws.getD t 0 }
+  let (s, labels) := traceEv (Dist.step cfg) (Dist.label cfg) Dist.crash Dist.init evs []
+  let crashed := fun t => evs.any (fun e => e.1 && e.2 == t)
+  let outs := (List.range ks.length).map (fun t =>
+    if s.pc t == .faulted && crashed t then "Killed" else fmtDistOutcome (s.pc t))
+  let nw := (ws.foldl max 0) + 1
+  let wids := (List.range nw).map (fun w => fmtId (s.wid w))
+  let lock := match s.lock with | none => "free" | some h => toString h
+  let var := match s.var with | none => "N" | some i => fmtId i
+  s!"{",".intercalate labels} ; {",".intercalate (s.calls.reverse.map fmtCall)} ; uid={",".intercalate wids} var={var} ; {",".intercalate outs} ; lock={lock}"
+
 def parseSeqOp? (s : String) : Option Seq.Op :=
   if s = "w" then some .write
   else if s = "f" then some .fin
@@ -363,6 +398,27 @@ def run (args : List String) : Option String :=
     let k ← parseNat? k
     let s := (ws.foldl Sink.write {}).finaliseCrash ps k
     pure (fmtView s)
+  | ["crashev", "local", ks, evs] => do
+    let ks ← parseList? parseKind? ks
+    let evs ← parseList? parseEv? evs
+    pure (runLocalEv ks evs)
+  | ["crashev", "dist", ks, ws, evs] => do
+    let ks ← parseList? parseKind? ks
+    let ws ← parseList? parseNat? ws
+    let evs ← parseList? parseEv? evs
+    pure (runDistEv ks ws evs)
+  | ["sinkkill", flushed, ws, ps, k] => do
+    let flushed ← parseBool? flushed
+    let ws ← parseList? parseWrite? ws
+    let ps ← parseList? parseNat? ps
+    let k ← parseNat? k
+    pure (fmtView ((ws.foldl Sink.write {}).finaliseKill flushed ps k))
+  | ["sinkcrashbytes", ws, ps, k, j] => do
+    let ws ← parseList? parseWrite? ws
+    let ps ← parseList? parseNat? ps
+    let k ← parseNat? k
+    let j ← parseNat? j
+    pure (fmtView ((ws.foldl Sink.write {}).finaliseCrashBytes ps k j))
   | ["seqpage", page, n, m] => do
     let page ← parseNat? page
     let n ← parseNat? n
